@@ -122,7 +122,7 @@ def check_filter_cond(ctx):
         tt = [jnp.asarray(x) if isinstance(x, float) else x for x in t]
         ff = [jnp.asarray(x) if isinstance(x, float) else x for x in f]
         try:
-            out = jax.jit(lambda p: filter_cond(p, lambda: tt, lambda: ff))(jnp.asarray(pred))
+            out = eqx.filter_jit(lambda p: filter_cond(p, lambda: tt, lambda: ff))(jnp.asarray(pred))
             impl = [float(x) if not isinstance(x, str) else x for x in out]
         except ValueError:
             impl = "ValueError"
